@@ -1,6 +1,8 @@
 #!/bin/bash
 # Run every check against every seeded change of ITS property (seeded/<id>/patch.diff) in one scratch worktree of /repo
 # outside /repo and /verif; prints one line per change. Usage: harness/seedmatrix.sh [ids...]   (default: all)
+# Runs with VERIF_DRIFT_SCALE=1 by default: the matrix shows what the BASE quick tier catches, without the enlarged search
+# that a changed anchored file triggers (anchors.py).
 # /repo itself is never modified; the scratch worktree is removed at the end.
 V=$(cd "$(dirname "$0")/.." && pwd)
 WT=${SEED_WT:-/tmp/seedmatrix_wt}
@@ -12,7 +14,7 @@ for id in $ids; do
   pid=${id%%-*}
   git -C $WT checkout -- mystic
   if ! git -C $WT apply $V/seeded/$id/patch.diff 2>/dev/null; then echo "$id apply-failed"; continue; fi
-  out=$(cd $V && MYSTIC_REPO=$WT timeout 1200 ./check $pid --tier quick 2>/dev/null); rc=$?
+  out=$(cd $V && VERIF_DRIFT_SCALE=${VERIF_DRIFT_SCALE:-1} MYSTIC_REPO=$WT timeout 1200 ./check $pid --tier quick 2>/dev/null); rc=$?
   nv=$(echo "$out" | grep -c '^VIOLATION')
   nf=$(echo "$out" | grep '^VIOLATION' | grep -vc 'no-failing-input-found')
   first=$(echo "$out" | grep '^VIOLATION' | grep -v 'no-failing-input-found' | head -1 | sed 's/.*replay=replays\/[^/]*\///')
